@@ -2,6 +2,7 @@
 names of real files, with the transparency baseline computed from the analysis of the UNMARKED source.
 stdin: {"contexts": [[id, cx]], "files": [[id, path, n, seed]], "programs": [[id, source]]}; stdout: list of cases"""
 import ast
+from vlib import astpos  # noqa
 import json
 import random
 import sys
@@ -196,7 +197,7 @@ def main():
         rng = random.Random(seed)
         try:
             src = open(path, encoding='utf-8').read()
-            tree = ast.parse(src)
+            tree = astpos.parse(src)
         except Exception:
             continue
         import os
